@@ -554,6 +554,174 @@ def _params_of(fn: ast.FunctionDef) -> set[str]:
     return {x.arg for x in a.args + a.kwonlyargs + a.posonlyargs} | ({a.vararg.arg} if a.vararg else set()) | ({a.kwarg.arg} if a.kwarg else set())
 
 
+def _displays_to_appends(fn: ast.FunctionDef) -> int:
+    done = 0
+    counter = [0]
+
+    def build(name: str, disp: ast.List, first: ast.stmt) -> list[ast.stmt]:
+        out: list[ast.stmt] = [first]
+        for e in disp.elts:
+            if isinstance(e, ast.Starred):
+                out.append(ast.AugAssign(ast.Name(name, ast.Store()), ast.Add(), e.value))
+            else:
+                out.append(ast.Expr(ast.Call(ast.Attribute(ast.Name(name, ast.Load()), "append", ast.Load()), [e], [])))
+        return out
+
+    def visit(block: list[ast.stmt]) -> list[ast.stmt]:
+        nonlocal done
+        out: list[ast.stmt] = []
+        for st in block:
+            for f in ("body", "orelse", "finalbody"):
+                v = getattr(st, f, None)
+                if isinstance(v, list) and v and isinstance(v[0], ast.stmt):
+                    setattr(st, f, visit(v))
+            if isinstance(st, ast.Try):
+                for h in st.handlers:
+                    h.body = visit(h.body)
+            val = st.value if isinstance(st, (ast.Assign, ast.AnnAssign, ast.Return, ast.AugAssign)) else None
+            if isinstance(st, ast.AugAssign):
+                # xs += [A, *B, C]  ->  xs.append(A); xs += B; xs.append(C)   (B must not mention xs)
+                if isinstance(st.op, ast.Add) and isinstance(st.target, ast.Name) and isinstance(val, ast.List) and any(isinstance(e, ast.Starred) for e in val.elts) \
+                        and not any(isinstance(n, ast.Name) and n.id == st.target.id for n in ast.walk(val)):
+                    out += build(st.target.id, val, ast.Pass())[1:]
+                    done += 1
+                    continue
+                out.append(st)
+                continue
+            if isinstance(val, ast.List) and any(isinstance(e, ast.Starred) for e in val.elts):
+                if isinstance(st, ast.Return):
+                    counter[0] += 1
+                    name = f"__list{counter[0]}"
+                    out += build(name, val, ast.Assign([ast.Name(name, ast.Store())], ast.List([], ast.Load()))) + [ast.Return(ast.Name(name, ast.Load()))]
+                    done += 1
+                    continue
+                tgt = st.targets[0] if isinstance(st, ast.Assign) and len(st.targets) == 1 else (st.target if isinstance(st, ast.AnnAssign) else None)
+                # `xs = [*xs, D]` re-reads xs: only a fresh name is built in place
+                if isinstance(tgt, ast.Name) and not any(isinstance(n, ast.Name) and n.id == tgt.id for n in ast.walk(val)):
+                    first = copy.copy(st)
+                    first.value = ast.List([], ast.Load())  # type: ignore[union-attr]
+                    out += build(tgt.id, val, first)
+                    done += 1
+                    continue
+            out.append(st)
+        return out
+
+    fn.body = visit(fn.body)
+    if done:
+        ast.fix_missing_locations(fn)
+    return done
+
+
+def _branch_out_nested_ifexp(fn: ast.FunctionDef) -> int:
+    """S(... A if c else B ...)  ->  if c: S(... A ...) else: S(... B ...)   for a simple statement S holding one conditional expression whose test
+    is call-free (evaluating such a test a little earlier cannot be observed) and that is evaluated unconditionally within S"""
+    done = 0
+
+    def split(st: ast.stmt) -> list[ast.stmt] | None:
+        if not isinstance(st, (ast.Return, ast.Expr, ast.Assign, ast.AugAssign)):
+            return None
+        ifs = [n for n in ast.walk(st) if isinstance(n, ast.IfExp)]
+        if len(ifs) != 1 or not _pure(ifs[0].test):
+            return None
+        ie = ifs[0]
+        if isinstance(st, (ast.Return, ast.Assign)) and st.value is ie:
+            return None  # the top-level forms have their own steps
+        # not under a construct that evaluates it conditionally or repeatedly
+        parents: dict[int, ast.AST] = {}
+        for p_ in ast.walk(st):
+            for c_ in ast.iter_child_nodes(p_):
+                parents[id(c_)] = p_
+        cur: ast.AST | None = parents.get(id(ie))
+        while cur is not None and cur is not st:
+            if isinstance(cur, (ast.BoolOp, ast.IfExp, ast.Lambda, ast.ListComp, ast.SetComp, ast.DictComp, ast.GeneratorExp)):
+                return None
+            cur = parents.get(id(cur))
+        names_in_test = {n.id for n in ast.walk(ie.test) if isinstance(n, ast.Name)}
+        if any(isinstance(n, ast.NamedExpr) for n in ast.walk(st)) or (isinstance(st, (ast.Assign, ast.AugAssign)) and names_in_test & {n.id for n in ast.walk(st) if isinstance(n, ast.Name) and isinstance(n.ctx, ast.Store)}):
+            return None
+
+        def variant(pick: str) -> ast.stmt:
+            c = copy.deepcopy(st)
+            target = [n for n in ast.walk(c) if isinstance(n, ast.IfExp)][0]
+            _replace(c, target, getattr(target, pick))
+            # `keyword=None` where None is what the conditional supplied as "nothing": kept as written
+            return c
+
+        return [ast.If(ie.test, [variant("body")], [variant("orelse")])]
+
+    def visit(block: list[ast.stmt]) -> list[ast.stmt]:
+        nonlocal done
+        out: list[ast.stmt] = []
+        for st in block:
+            for f in ("body", "orelse", "finalbody"):
+                v = getattr(st, f, None)
+                if isinstance(v, list) and v and isinstance(v[0], ast.stmt):
+                    setattr(st, f, visit(v))
+            if isinstance(st, ast.Try):
+                for h in st.handlers:
+                    h.body = visit(h.body)
+            new = split(st)
+            if new is not None:
+                done += 1
+                out.extend(new)
+            else:
+                out.append(st)
+        return out
+
+    fn.body = visit(fn.body)
+    if done:
+        ast.fix_missing_locations(fn)
+    return done
+
+
+def _branch_out_ifexp(fn: ast.FunctionDef) -> int:
+    stores: dict[str, int] = {}
+    for n in ast.walk(fn):
+        if isinstance(n, ast.Name) and isinstance(n.ctx, ast.Store):
+            stores[n.id] = stores.get(n.id, 0) + 1
+    done = 0
+
+    def subst(stmts: list[ast.stmt], name: str, value: ast.expr) -> list[ast.stmt]:
+        class _S(ast.NodeTransformer):
+            def visit_Name(self, n: ast.Name) -> ast.AST:
+                return copy.deepcopy(value) if n.id == name and isinstance(n.ctx, ast.Load) else n
+
+        return [_S().visit(copy.deepcopy(st)) for st in stmts]
+
+    def visit(block: list[ast.stmt], at_function_end: bool) -> list[ast.stmt]:
+        nonlocal done
+        for i, st in enumerate(block):
+            # x = E + K if c else E   ->   x = E ; if c: x += K        (the conditional adjustment of one value)
+            if isinstance(st, ast.Assign) and len(st.targets) == 1 and isinstance(st.targets[0], ast.Name) and isinstance(st.value, ast.IfExp) and _pure(st.value.test):
+                ie = st.value
+                for plus, base, neg in ((ie.body, ie.orelse, False), (ie.orelse, ie.body, True)):
+                    if isinstance(plus, ast.BinOp) and isinstance(plus.op, (ast.Add, ast.Sub)) and isinstance(plus.right, ast.Constant) and ast.dump(plus.left) == ast.dump(base) and _pure(base):
+                        x = st.targets[0].id
+                        done += 1
+                        adj = ast.If(negate(ie.test) if neg else ie.test, [ast.AugAssign(ast.Name(x, ast.Store()), plus.op, plus.right)], [])
+                        return visit(block[:i] + [ast.Assign([ast.Name(x, ast.Store())], base), adj] + block[i + 1:], at_function_end)
+            if isinstance(st, ast.Assign) and len(st.targets) == 1 and isinstance(st.targets[0], ast.Name) and isinstance(st.value, ast.IfExp) \
+                    and stores.get(st.targets[0].id) == 1 and _pure(st.value.body) and _pure(st.value.orelse) and _pure(st.value.test):
+                x, rest = st.targets[0].id, block[i + 1:]
+                used_elsewhere = sum(1 for n in ast.walk(fn) if isinstance(n, ast.Name) and n.id == x and isinstance(n.ctx, ast.Load)) != \
+                    sum(1 for r_ in rest for n in ast.walk(r_) if isinstance(n, ast.Name) and n.id == x and isinstance(n.ctx, ast.Load))
+                # the copies must both leave the block the same way the original did: only when the rest ends the function / always leaves
+                if 1 <= len(rest) <= 6 and not used_elsewhere and (at_function_end or not _falls_through(rest)):
+                    done += 1
+                    return block[:i] + [ast.If(st.value.test, subst(rest, x, st.value.body), subst(rest, x, st.value.orelse))]
+        for st in block:
+            for f in ("body", "orelse", "finalbody"):
+                v = getattr(st, f, None)
+                if isinstance(v, list) and v and isinstance(v[0], ast.stmt):
+                    setattr(st, f, visit(v, False))
+        return block
+
+    fn.body = visit(fn.body, True)
+    if done:
+        ast.fix_missing_locations(fn)
+    return done
+
+
 def inline_new_temps(fn: ast.FunctionDef, ref: ast.FunctionDef) -> int:
     new_names = _locals_of(fn) - _locals_of(ref) - _params_of(fn)
     return _inline_temps(fn, only=new_names) if new_names else 0
@@ -627,6 +795,44 @@ def toward_reference(fn: ast.FunctionDef, ref: ast.FunctionDef, signatures: dict
     own = _params_of(fn) | _locals_of(fn)
     sig = {k: v for k, v in signatures.items() if k not in own}
 
+    # -- a list display with unpacking, `xs = [A, *B, C]` / `return [*xs, D]`, is the list built by appends in the same order, when the reference
+    # builds its lists that way (no starred display of its own)
+    if not any(isinstance(n, ast.Starred) for n in ast.walk(ref)):
+        k_ = _displays_to_appends(fn)
+        if k_:
+            notes.append("starred list display -> appends")
+    # -- `x = A if c else B` followed by the statements that use x: the two branches written out (x being A in one copy, B in the other), when the
+    # reference has no conditional expression of its own; the rules then meet `if c:` with the statements under it, as in the reference
+    if not any(isinstance(n, ast.IfExp) for n in ast.walk(ref)):
+        k_ = _branch_out_ifexp(fn) + _branch_out_nested_ifexp(fn)
+        if k_:
+            notes.append("conditional expression -> branches")
+            eliminate_param_copies(fn)
+    # -- `x = A if c else B` as a statement of its own -> `if c: x = A else: x = B`, when the reference never assigns a conditional expression
+    if not any(isinstance(n, (ast.Assign, ast.AnnAssign)) and isinstance(getattr(n, "value", None), ast.IfExp) for n in ast.walk(ref)):
+        def stmt_form(block: list[ast.stmt]) -> list[ast.stmt]:
+            out: list[ast.stmt] = []
+            for st in block:
+                for f in ("body", "orelse", "finalbody"):
+                    v = getattr(st, f, None)
+                    if isinstance(v, list) and v and isinstance(v[0], ast.stmt):
+                        setattr(st, f, stmt_form(v))
+                if isinstance(st, ast.Try):
+                    for h in st.handlers:
+                        h.body = stmt_form(h.body)
+                if isinstance(st, ast.Assign) and len(st.targets) == 1 and isinstance(st.targets[0], ast.Name) and isinstance(st.value, ast.IfExp):
+                    t_ = st.targets[0].id
+                    if isinstance(st.value.orelse, ast.Constant) and st.value.orelse.value is None:
+                        out += [ast.Assign([ast.Name(t_, ast.Store())], st.value.orelse), ast.If(st.value.test, [ast.Assign([ast.Name(t_, ast.Store())], st.value.body)], [])]
+                    else:
+                        out.append(ast.If(st.value.test, [ast.Assign([ast.Name(t_, ast.Store())], st.value.body)], [ast.Assign([ast.Name(t_, ast.Store())], st.value.orelse)]))
+                    notes.append("conditional assignment -> if")
+                    continue
+                out.append(st)
+            return out
+
+        fn.body = stmt_form(fn.body)
+        ast.fix_missing_locations(fn)
     # -- temporaries the reference does not have
     new_names = _locals_of(fn) - _locals_of(ref) - _params_of(fn)
     if new_names:
